@@ -227,9 +227,10 @@ def run_case(case, rec, mon=None):
                 p = P.Preemphasize(0.123)
                 p.coeff = coeff  # documented public attribute
                 rec.count("attributes_reassigned_after_construction")
-            if mode == 0:  # read-only input, not in place
+            if mode == 0:  # read-only input, not in place (the flag also spelled with other false values)
                 x.setflags(write=False)
-                y = p.apply(x)
+                k_ip = int(rng.integers(6))
+                y = p.apply(x) if k_ip < 2 else p.apply(x, in_place=[False, 0, np.False_, None][k_ip - 2])
             elif mode == 1:  # strided (non-contiguous) view
                 big = np.repeat(x, 2, axis=-1)
                 y = p.apply(big[..., ::2])
@@ -282,7 +283,8 @@ def run_case(case, rec, mon=None):
             np.random.seed(s)
             y1 = d.apply(x)
             np.random.seed(s)
-            y2 = d.apply(x)
+            k_ip = int(rng.integers(6))
+            y2 = d.apply(x) if k_ip < 2 else d.apply(x, in_place=[False, 0, np.False_, None][k_ip - 2])  # (x is read-only)
             rec.count("dither_seed_pairs")
             if not np.array_equal(y1, y2):
                 mon.v("Dither not reproducible under np.random.seed(%d)" % s, check="dither_seed", op="dither", dtype=dtype, shape=[n], coeff=coeff)
